@@ -5,6 +5,7 @@ package main
 
 import (
 	"fmt"
+	"reflect"
 	"go/ast"
 	"sort"
 	"strings"
@@ -117,6 +118,43 @@ func main() {
 			return true
 		})
 		ex.DefStrList("frozenCallArgs", args)
+	}
+	ex.Comment("who runs the context check: every call of BlockChain.CheckTransactionContext (caller, height argument) in the node, every call of the ContextCheck method, and how CheckTransactionContext builds the parameters")
+	{
+		all := exg.Load(false, "./blockchain", "./mempool", "./pow", "./servers", "./elanet/...", "./core/...", "./dpos/...", "./cr/...")
+		var rows []string
+		for _, cs := range exg.CallSites(all, "(*blockchain.BlockChain).CheckTransactionContext") {
+			rows = append(rows, fmt.Sprintf("(%s, %s)", ex.LeanStr(cs.Caller), ex.LeanStr(cs.Args[0])))
+		}
+		sort.Strings(rows)
+		fmt.Printf("def contextCallSites : List (String × String) := [%s]\n", strings.Join(rows, ", "))
+		var callers []string
+		for _, cs := range exg.CallSites(all, "method:ContextCheck") {
+			callers = append(callers, cs.Caller+" "+strings.Join(cs.Args, ","))
+		}
+		sort.Strings(callers)
+		ex.DefStrList("contextCheckCallers", callers)
+		var para []string
+		for _, cs := range exg.CallSites(all, "src:functions.GetTransactionParameters") {
+			if cs.Caller == "blockchain.BlockChain.CheckTransactionContext" {
+				para = cs.Args
+			}
+		}
+		ex.DefStrList("contextParameters", para)
+	}
+	ex.Comment("struct tags of the policy fields of config.Configuration (a `screw:` tag would make the field a command line flag)")
+	{
+		var rows []string
+		t := reflect.TypeOf(config.Configuration{})
+		for _, f := range []string{"CrossChainUTXOFreezeHeight", "CrossChainUTXORestrictionHeight", "FrozenAddresses", "ActiveNet"} {
+			sf, ok := t.FieldByName(f)
+			if !ok {
+				rows = append(rows, fmt.Sprintf("(%s, %s)", ex.LeanStr(f), ex.LeanStr("MISSING")))
+				continue
+			}
+			rows = append(rows, fmt.Sprintf("(%s, %s)", ex.LeanStr(f), ex.LeanStr(string(sf.Tag))))
+		}
+		fmt.Printf("def policyFieldTags : List (String × String) := [%s]\n", strings.Join(rows, ", "))
 	}
 	ex.Footer("C32")
 }
